@@ -27,8 +27,18 @@ pub enum BackendRec {
     Execute { step: u64, pid: ProcessId, op: BackendOp, outcome: String, new_rid: Option<ResourceId> },
     /// close_resource() called by the environment (automatic cleanup)
     AutoClose { step: u64, rid: ResourceId, was_open: bool },
-    /// an async completion handed back to the environment
-    Completed { step: u64, pid: ProcessId, ok: bool },
+    /// an async completion handed back to the environment; `new_rid` if it carries a new resource
+    /// (an accepted connection)
+    Completed { step: u64, pid: ProcessId, ok: bool, new_rid: Option<ResourceId> },
+}
+
+/// One end of an in-memory connection.
+#[derive(Clone, Debug, Default)]
+pub struct SockEnd {
+    pub peer: usize,
+    pub inbox: Vec<u8>,
+    pub peer_closed: bool,
+    pub closed: bool,
 }
 
 #[derive(Clone, Copy, Debug, PartialEq, Eq, serde::Serialize, serde::Deserialize)]
@@ -52,6 +62,17 @@ pub struct BackendState {
     pub resolvers: BTreeMap<ResourceId, usize>,
     /// open directory iterators: rid -> remaining entry names
     pub dirs: BTreeMap<ResourceId, Vec<String>>,
+    pub socket_type_id: usize,
+    pub listener_type_id: usize,
+    /// loopback TCP: listener rid -> (port, connection ends waiting to be accepted)
+    pub listeners: BTreeMap<ResourceId, (u16, Vec<usize>)>,
+    /// socket rid -> connection end
+    pub sockets: BTreeMap<ResourceId, usize>,
+    pub ends: Vec<SockEnd>,
+    /// accepts waiting for a connection: (pid, listener rid)
+    pub waiting_accepts: Vec<(ProcessId, ResourceId)>,
+    /// reads waiting for data: (pid, end, length)
+    pub waiting_reads: Vec<(ProcessId, usize, usize)>,
     /// type ids of composite effect results, pushed by the environment (builtin name -> info)
     pub result_infos: BTreeMap<String, (usize, BTreeMap<String, usize>)>,
     pub type_ids_pushed: u64,
@@ -82,6 +103,13 @@ impl BackendState {
             dir_type_id: 0,
             resolvers: BTreeMap::new(),
             dirs: BTreeMap::new(),
+            socket_type_id: 0,
+            listener_type_id: 0,
+            listeners: BTreeMap::new(),
+            sockets: BTreeMap::new(),
+            ends: Vec::new(),
+            waiting_accepts: Vec::new(),
+            waiting_reads: Vec::new(),
             result_infos: BTreeMap::new(),
             type_ids_pushed: 0,
             pending: Vec::new(),
@@ -103,6 +131,50 @@ impl BackendState {
         let c = self.pending.remove(k);
         self.ready.push(c);
         true
+    }
+    /// data or EOF became available on `end`: complete the reads waiting on it
+    fn wake_reads(&mut self, end: usize) {
+        let mut i = 0;
+        while i < self.waiting_reads.len() {
+            let (pid, e, len) = self.waiting_reads[i];
+            if e == end && (!self.ends[end].inbox.is_empty() || self.ends[end].peer_closed) {
+                self.waiting_reads.remove(i);
+                let n = len.min(self.ends[end].inbox.len());
+                let bytes: Vec<u8> = self.ends[end].inbox.drain(..n).collect();
+                self.pending.push((pid, Ok((Value::Binary(Binary::Heap(0)), vec![bytes]))));
+            } else {
+                i += 1;
+            }
+        }
+    }
+    fn close_socket_end(&mut self, end: usize) {
+        self.ends[end].closed = true;
+        let peer = self.ends[end].peer;
+        if peer < self.ends.len() {
+            self.ends[peer].peer_closed = true;
+            self.wake_reads(peer);
+        }
+        // reads of the closed end itself fail
+        let mut i = 0;
+        while i < self.waiting_reads.len() {
+            if self.waiting_reads[i].1 == end {
+                let (pid, _, _) = self.waiting_reads.remove(i);
+                self.pending.push((pid, Err(EffectError::IO("Read error: socket closed".to_string()))));
+            } else {
+                i += 1;
+            }
+        }
+    }
+    fn close_listener(&mut self, rid: ResourceId) {
+        let mut i = 0;
+        while i < self.waiting_accepts.len() {
+            if self.waiting_accepts[i].1 == rid {
+                let (pid, _) = self.waiting_accepts.remove(i);
+                self.pending.push((pid, Err(EffectError::IO("Accept error: listener closed".to_string()))));
+            } else {
+                i += 1;
+            }
+        }
     }
     fn fired(&mut self, k: &str) {
         *self.faults_fired.entry(k.to_string()).or_insert(0) += 1;
@@ -227,6 +299,118 @@ impl EffectBackend for SimBackend {
                     (op, Ok(Some(Ok((Value::ok(), vec![])))))
                 }
             }
+            // loopback TCP: listen / connect / accept / read / write / close over in-memory connection ends
+            NativeEffect::TcpListen { port, .. } => {
+                let op = BackendOp::Open { path: format!("tcp-listen:{port}") };
+                if st.listeners.values().any(|(p, _)| *p == port) {
+                    (op, Err(Error::InvalidArgument(format!("Failed to bind port {port}: address in use"))))
+                } else {
+                    let rid = st.next_rid;
+                    st.next_rid += 1;
+                    st.listeners.insert(rid, (port, Vec::new()));
+                    let ty = st.listener_type_id;
+                    (op, Ok(Some(Ok((Value::Resource(rid, ty), vec![])))))
+                }
+            }
+            NativeEffect::TcpConnect { port, .. } => {
+                let op = BackendOp::Open { path: format!("tcp-connect:{port}") };
+                let Some(lrid) = st.listeners.iter().find(|(_, (p, _))| *p == port).map(|(r, _)| *r) else {
+                    return {
+                        let res: Result<Option<EffectResult>, Error> = Ok(Some(Err(EffectError::IO("Connection refused".to_string()))));
+                        st.history.push(BackendRec::Execute { step, pid, op, outcome: "effect-error:refused".to_string(), new_rid: None });
+                        res
+                    };
+                };
+                let a = st.ends.len();
+                st.ends.push(SockEnd { peer: a + 1, ..Default::default() });
+                st.ends.push(SockEnd { peer: a, ..Default::default() });
+                let rid = st.next_rid;
+                st.next_rid += 1;
+                st.sockets.insert(rid, a);
+                // hand the other end to a waiting accept, or queue it
+                if let Some(pos) = st.waiting_accepts.iter().position(|(_, l)| *l == lrid) {
+                    let (apid, _) = st.waiting_accepts.remove(pos);
+                    let srid = st.next_rid;
+                    st.next_rid += 1;
+                    st.sockets.insert(srid, a + 1);
+                    let ty = st.socket_type_id;
+                    st.pending.push((apid, Ok((Value::Resource(srid, ty), vec![]))));
+                } else {
+                    st.listeners.get_mut(&lrid).unwrap().1.push(a + 1);
+                }
+                let ty = st.socket_type_id;
+                (op, Ok(Some(Ok((Value::Resource(rid, ty), vec![])))))
+            }
+            NativeEffect::TcpListenerAccept { resource_id } => {
+                let op = BackendOp::Read { rid: resource_id };
+                match st.listeners.get_mut(&resource_id) {
+                    None => (op, Err(Error::InvalidArgument(format!("Resource {} not found", resource_id)))),
+                    Some((_, q)) if !q.is_empty() => {
+                        let end = q.remove(0);
+                        let rid = st.next_rid;
+                        st.next_rid += 1;
+                        st.sockets.insert(rid, end);
+                        let ty = st.socket_type_id;
+                        (op, Ok(Some(Ok((Value::Resource(rid, ty), vec![])))))
+                    }
+                    Some(_) => {
+                        st.waiting_accepts.push((pid, resource_id));
+                        (op, Ok(None))
+                    }
+                }
+            }
+            NativeEffect::TcpListenerClose { resource_id } => {
+                let op = BackendOp::Close { rid: resource_id };
+                if st.listeners.remove(&resource_id).is_none() {
+                    (op, Err(Error::InvalidArgument(format!("Resource {} not found", resource_id))))
+                } else {
+                    st.close_listener(resource_id);
+                    (op, Ok(Some(Ok((Value::ok(), vec![])))))
+                }
+            }
+            NativeEffect::TcpSocketRead { resource_id, length } => {
+                let op = BackendOp::Read { rid: resource_id };
+                match st.sockets.get(&resource_id).copied() {
+                    None => (op, Err(Error::InvalidArgument(format!("Resource {} not found", resource_id)))),
+                    Some(end) => {
+                        if !st.ends[end].inbox.is_empty() || st.ends[end].peer_closed {
+                            let n = length.min(st.ends[end].inbox.len());
+                            let bytes: Vec<u8> = st.ends[end].inbox.drain(..n).collect();
+                            (op, Ok(Some(Ok((Value::Binary(Binary::Heap(0)), vec![bytes])))))
+                        } else {
+                            st.waiting_reads.push((pid, end, length));
+                            (op, Ok(None))
+                        }
+                    }
+                }
+            }
+            NativeEffect::TcpSocketWrite { resource_id, data } => {
+                let op = BackendOp::Write { rid: resource_id, len: data.len() };
+                match st.sockets.get(&resource_id).copied() {
+                    None => (op, Err(Error::InvalidArgument(format!("Resource {} not found", resource_id)))),
+                    Some(end) => {
+                        let peer = st.ends[end].peer;
+                        if st.ends[end].peer_closed {
+                            (op, Ok(Some(Err(EffectError::IO("Write error: broken pipe".to_string())))))
+                        } else {
+                            let n = data.len();
+                            st.ends[peer].inbox.extend_from_slice(&data);
+                            st.wake_reads(peer);
+                            (op, Ok(Some(Ok((Value::Integer(n.into()), vec![])))))
+                        }
+                    }
+                }
+            }
+            NativeEffect::TcpSocketClose { resource_id } => {
+                let op = BackendOp::Close { rid: resource_id };
+                match st.sockets.remove(&resource_id) {
+                    None => (op, Err(Error::InvalidArgument(format!("Resource {} not found", resource_id)))),
+                    Some(end) => {
+                        st.close_socket_end(end);
+                        (op, Ok(Some(Ok((Value::ok(), vec![])))))
+                    }
+                }
+            }
             // directory listing and stat over the in-memory file table: composite results stamped with the
             // type ids the environment pushed (`[name, kind]`, `[kind, size, modified, mode]`)
             NativeEffect::ReadDirOpen { path } => {
@@ -316,8 +500,12 @@ impl EffectBackend for SimBackend {
             }
             _ => (BackendOp::Other, Err(Error::InvalidArgument("effect not supported by SimBackend".to_string()))),
         };
+        // read/write/flush (and accept, recorded as a read of the listener) are asynchronous in the real
+        // backend: the completion is held back, and a resource it carries exists for the environment only
+        // once the completion has been handed over (recorded there)
+        let deferred = matches!(op, BackendOp::Read { .. } | BackendOp::Write { .. } | BackendOp::Flush { .. }) && !st.sync_io;
         let new_rid = match &res {
-            Ok(Some(Ok((Value::Resource(r, _), _)))) => Some(*r),
+            Ok(Some(Ok((Value::Resource(r, _), _)))) if !deferred => Some(*r),
             _ => None,
         };
         let outcome = match &res {
@@ -344,7 +532,11 @@ impl EffectBackend for SimBackend {
         let out = std::mem::take(&mut st.ready);
         let step = st.step;
         for (pid, r) in &out {
-            st.history.push(BackendRec::Completed { step, pid: *pid, ok: r.is_ok() });
+            let new_rid = match r {
+                Ok((Value::Resource(rid, _), _)) => Some(*rid),
+                _ => None,
+            };
+            st.history.push(BackendRec::Completed { step, pid: *pid, ok: r.is_ok(), new_rid });
         }
         out
     }
@@ -353,7 +545,18 @@ impl EffectBackend for SimBackend {
         let mut st = self.0.lock().unwrap();
         let was_file = st.open.remove(&resource_id).is_some();
         let was_dir = st.dirs.remove(&resource_id).is_some();
-        let was_open = st.resolvers.remove(&resource_id).is_some() || was_file || was_dir;
+        let was_listener = st.listeners.remove(&resource_id).is_some();
+        if was_listener {
+            st.close_listener(resource_id);
+        }
+        let was_socket = match st.sockets.remove(&resource_id) {
+            Some(end) => {
+                st.close_socket_end(end);
+                true
+            }
+            None => false,
+        };
+        let was_open = st.resolvers.remove(&resource_id).is_some() || was_file || was_dir || was_listener || was_socket;
         let step = st.step;
         st.history.push(BackendRec::AutoClose { step, rid: resource_id, was_open });
     }
@@ -369,6 +572,12 @@ impl EffectBackend for SimBackend {
         }
         if let Some(i) = resources.iter().position(|n| n == "Dir") {
             st.dir_type_id = i;
+        }
+        if let Some(i) = resources.iter().position(|n| n == "TcpSocket") {
+            st.socket_type_id = i;
+        }
+        if let Some(i) = resources.iter().position(|n| n == "TcpListener") {
+            st.listener_type_id = i;
         }
         for (name, info) in results {
             st.result_infos.insert(name.clone(), (info.tuple_id, info.variants.iter().map(|(k, v)| (k.clone(), *v)).collect()));
